@@ -617,4 +617,13 @@ def copy_well_posed(repo: Repo) -> RuleRun:
 
 copy_well_posed.rule_id = "C03.COPY-WELL-POSED"
 
-RULES = [registry_agreement, closure, invert_complete, validation_siblings, dimensions, bracket_siblings, unit_ratio_tests, copy_well_posed]
+def no_stale_lazy_cache(repo: Repo) -> RuleRun:
+    """Chop.calculate(length) resolves for THIS length: nothing computed from the call argument is kept on the chop and served for another length."""
+    from ..memo import lazy_cache_rule
+
+    return lazy_cache_rule(repo, PROP, "C03.NO-STALE-CACHE", ('grading.',))
+
+
+no_stale_lazy_cache.rule_id = "C03.NO-STALE-CACHE"
+
+RULES = [registry_agreement, closure, invert_complete, validation_siblings, dimensions, bracket_siblings, unit_ratio_tests, copy_well_posed, no_stale_lazy_cache]
